@@ -133,6 +133,9 @@ func (mc *c19Machine) verifyAll(t *rapid.T) {
 				if g0, g1 := ObserveGetters(mc.ev.Claims), ObserveGetters(want); g0 != g1 {
 					mc.fail(t, "Verify(%s) succeeds but the attached claims are not the decoding of the signed payload:\n   attached: %s\n   payload:  %s", k.Name(), g0, g1)
 				}
+				if o0, o1 := extOwn(mc.ev.Claims), extOwn(want); o0 != o1 {
+					mc.fail(t, "Verify(%s) succeeds but the extension's own claims held by the attached claims-set (%s) are not in the signed payload (%s)", k.Name(), o0, o1)
+				}
 			}
 		}
 	}
@@ -241,6 +244,9 @@ func c19Run(t *rapid.T, st *Stats) {
 				}
 				if g0, g1 := ObserveGetters(claimsBefore), ObserveGetters(d.Claims); g0 != g1 {
 					mc.fail(t, "the token returned by %s decodes to other claims than the attached ones:\n   attached: %s\n   decoded:  %s", name, g0, g1)
+				}
+				if o0, o1 := extOwn(claimsBefore), extOwn(d.Claims); o0 != o1 {
+					mc.fail(t, "the token returned by %s lacks / changes the extension's own claims: attached %s, decoded %s", name, o0, o1)
 				}
 			}
 		} else {
